@@ -2,9 +2,11 @@ package main
 
 import (
 	"fmt"
+	"math/big"
 
 	"github.com/consensys/gnark-crypto/field/koalabear"
 	fext "github.com/consensys/gnark-crypto/field/koalabear/extensions"
+	kbfft "github.com/consensys/gnark-crypto/field/koalabear/fft"
 	"github.com/consensys/gnark-crypto/field/koalabear/sis"
 	"github.com/consensys/gnark-crypto/field/koalabear/vortex"
 
@@ -22,9 +24,64 @@ type vortexInst struct {
 	in     vortex.VerifierInput
 }
 
+// naiveLagrange: sum_j row[j] prod_{k != j} (x - g^k)/(g^j - g^k), the definition (independent of the package's
+// barycentric routines and of their "x is a node" shortcut).
+func naiveLagrange(row []koalabear.Element, x fext.E4) fext.E4 {
+	n := len(row)
+	g, _ := kbfft.Generator(uint64(n))
+	nodes := make([]koalabear.Element, n)
+	nodes[0].SetOne()
+	for i := 1; i < n; i++ {
+		nodes[i].Mul(&nodes[i-1], &g)
+	}
+	var res fext.E4
+	for j := 0; j < n; j++ {
+		var num fext.E4
+		num.SetOne()
+		var den koalabear.Element
+		den.SetOne()
+		for k := 0; k < n; k++ {
+			if k == j {
+				continue
+			}
+			t := x
+			t.B0.A0.Sub(&t.B0.A0, &nodes[k])
+			num.Mul(&num, &t)
+			var d koalabear.Element
+			d.Sub(&nodes[j], &nodes[k])
+			den.Mul(&den, &d)
+		}
+		den.Inverse(&den)
+		den.Mul(&den, &row[j])
+		num.MulByElement(&num, &den)
+		res.Add(&res, &num)
+	}
+	return res
+}
+
+// naiveLagrangeExt: the same for extension-valued nodes values.
+func naiveLagrangeExt(vals []fext.E4, x fext.E4) fext.E4 {
+	var res fext.E4
+	for c := 0; c < 4; c++ {
+		row := make([]koalabear.Element, len(vals))
+		for j := range vals {
+			row[j] = *[]*koalabear.Element{&vals[j].B0.A0, &vals[j].B0.A1, &vals[j].B1.A0, &vals[j].B1.A1}[c]
+		}
+		t := naiveLagrange(row, x)
+		var basis fext.E4
+		*[]*koalabear.Element{&basis.B0.A0, &basis.B0.A1, &basis.B1.A0, &basis.B1.A1}[c] = kb(1)
+		t.Mul(&t, &basis)
+		res.Add(&res, &t)
+	}
+	return res
+}
+
 func mkVortex(numCol, numRow, rate int, cols []int, seed uint64) (*vortexInst, error) {
+	return mkVortexAt(numCol, numRow, rate, cols, seed, e4(seed+11, seed+23, seed+37, seed+41))
+}
+
+func mkVortexAt(numCol, numRow, rate int, cols []int, seed uint64, x fext.E4) (*vortexInst, error) {
 	m := make([][]koalabear.Element, numRow)
-	x := e4(seed+11, seed+23, seed+37, seed+41)
 	alpha := e4(seed+101, seed+211, seed+307, seed+401)
 	ys := make([]fext.E4, numRow)
 	for i := range m {
@@ -176,6 +233,87 @@ func runVortex(r *vlib.Run, g string) {
 						r.FailIn(g, key("panic-on-forged-proof"), name+": non-codeword in "+cn, pn, nil)
 					} else if err == nil {
 						r.FailIn(g, key("accepts-forged-proof/UAlpha-not-a-codeword-in-coordinate-"+cn), name, "vortex Verify accepts a false claimed value with a UAlpha that is not a Reed-Solomon codeword in coordinate "+cn+" ("+name+")", nil)
+					}
+				}
+			}
+		}
+		// structured evaluation points: the nodes of the row domain and of the code-word domain, and the points that
+		// agree with a node in some but not all extension coordinates (the evaluation routines special-case nodes). The
+		// claimed values come from the definition of the interpolant; the honest opening must verify, a false claim must not
+		{
+			N := inst.params.SizeCodeWord()
+			gN, _ := kbfft.Generator(uint64(N))
+			var pts []fext.E4
+			var names []string
+			for _, i := range []int{0, 1, N / 2, N - 1} {
+				var w koalabear.Element
+				w.Exp(gN, big.NewInt(int64(i)))
+				for _, tail := range [][3]uint64{{0, 0, 0}, {1, 2, 3}, {1, 0, 0}, {0, 1, 0}, {0, 0, 1}} {
+					pts = append(pts, fext.E4{B0: fext.E2{A0: w, A1: kb(tail[0])}, B1: fext.E2{A0: kb(tail[1]), A1: kb(tail[2])}})
+					names = append(names, fmt.Sprintf("x=(g^%d,%d,%d,%d) with g of order %d", i, tail[0], tail[1], tail[2], N))
+				}
+			}
+			for pi, x := range pts {
+				var at *vortexInst
+				var err error
+				if pn := vlib.Guard(func() { at, err = mkVortexAt(c.cols, c.rows, c.rate, c.sel, uint64(3+ci), x) }); pn != "" || err != nil {
+					r.FailIn(g, key("prover-error"), name+" "+names[pi], fmt.Sprint(err, pn), nil)
+					continue
+				}
+				// claims from the definition
+				for i := 0; i < c.rows; i++ {
+					row := make([]koalabear.Element, c.cols)
+					for j := range row {
+						row[j] = kb(uint64(3+ci)*1000003 + uint64(i*131+j*17+5))
+					}
+					want := naiveLagrange(row, x)
+					n++
+					if !want.Equal(&at.in.ClaimedValues[i]) {
+						r.FailIn(g, key("EvalBasePolyLagrange-wrong"), name+" "+names[pi], "vortex EvalBasePolyLagrange differs from the interpolant's definition at "+names[pi], nil)
+					}
+					at.in.ClaimedValues[i] = want
+				}
+				{
+					want := naiveLagrangeExt(at.in.Proof.UAlpha, x)
+					got, err := vortex.EvalFextPolyLagrange(at.in.Proof.UAlpha, x)
+					n++
+					if err != nil || !got.Equal(&want) {
+						r.FailIn(g, key("EvalFextPolyLagrange-wrong"), name+" "+names[pi], fmt.Sprintf("vortex EvalFextPolyLagrange differs from the interpolant's definition at %s (err=%v)", names[pi], err), nil)
+					}
+				}
+				pn := vlib.Guard(func() { err = at.params.Verify(at.in) })
+				n++
+				if pn != "" || err != nil {
+					r.FailIn(g, key("rejects-honest-proof"), name+" "+names[pi], fmt.Sprintf("vortex Verify rejects an honest opening at %s (%s): %v %s", names[pi], name, err, pn), nil)
+					continue
+				}
+				for k := 0; k < c.rows; k += max(1, c.rows-1) {
+					save := at.in.ClaimedValues[k]
+					one := e4(1, 0, 0, 0)
+					at.in.ClaimedValues[k].Add(&at.in.ClaimedValues[k], &one)
+					pn := vlib.Guard(func() { err = at.params.Verify(at.in) })
+					n++
+					at.in.ClaimedValues[k] = save
+					if pn == "" && err == nil {
+						r.FailIn(g, key("accepts-forged-proof/false-claim-at-structured-point"), name+" "+names[pi], "vortex Verify accepts a false claimed value at "+names[pi]+" ("+name+")", nil)
+					}
+				}
+				// the claim the node shortcut would produce: UAlpha read at one position instead of evaluated
+				for pos := 0; pos < N; pos += max(1, N/4) {
+					target := at.in.Proof.UAlpha[pos]
+					honest := vortex.EvalFextPolyHorner(at.in.ClaimedValues, at.in.Alpha)
+					if target.Equal(&honest) {
+						continue
+					}
+					save := at.in.ClaimedValues[0]
+					var d fext.E4
+					d.Sub(&target, &honest)
+					at.in.ClaimedValues[0].Add(&at.in.ClaimedValues[0], &d)
+					pn := vlib.Guard(func() { err = at.params.Verify(at.in) })
+					n++
+					at.in.ClaimedValues[0] = save
+					if pn == "" && err == nil {
+						r.FailIn(g, key("accepts-forged-proof/claim-matching-one-UAlpha-entry"), name+" "+names[pi], fmt.Sprintf("vortex Verify accepts a false claim chosen so that the combination equals UAlpha[%d] at %s (%s)", pos, names[pi], name), nil)
 					}
 				}
 			}
